@@ -359,10 +359,11 @@ func (s *Store[H]) DeleteRange(ctx context.Context, from, to uint64) error {
 	// above it, which is enough to resume a tail-side deletion but would leave the head
 	// pointing at a deleted header.
 	actualTo, _, deleteErr := s.deleteRangeRaw(ctx, from, to, !updateHead)
-	if deleteErr != nil && actualTo >= from && actualTo < to && !s.storedAt(ctx, actualTo) {
+	for deleteErr != nil && actualTo >= from && actualTo < to && !s.storedAt(ctx, actualTo) {
 		// On a datastore without atomic batches the deletion of the header it stopped at may have been
 		// interrupted between its two writes: a header that cannot be read any more counts as deleted,
-		// otherwise a pointer would be left on it.
+		// otherwise a pointer would be left on it. The parallel path may have removed the headers right
+		// above it as well: the progress is the first height that is still stored.
 		s.evictAt(ctx, actualTo)
 		actualTo++
 	}
